@@ -19,7 +19,7 @@ def run(ctx):
                 "--prisms", prisms, "--prism-cap", 300, "--prism-over", 8, timeout=7200)
     else:
         ctx.dsv("C15", "drive", "--out", ev, "--max2d", 6, "--max3d", 4, "--permille", 150,
-                "--prisms", prisms, "--prism-cap", 3000, "--prism-over", 10, timeout=14400)
+                "--prisms", prisms, "--prism-cap", 3000, "--prism-over", 9, timeout=14400)
     for ln in open(ev):
         e = json.loads(ln)
         if "cov" in e and e["cov"]["n"] > e["sym"]["n"]:
